@@ -46,6 +46,7 @@ def cases(draw, tier):
             'model_kind': draw(st.sampled_from(['tt', 'tt_str', 'py'])),
             'time_limit': draw(st.sampled_from([None, None, None, None, None, None, None, 60])),
             'again': draw(st.integers(0, 3)) == 0,
+            'transport': draw(st.sampled_from(['none', 'none', 'deepcopy', 'pickle'])),
             'realise': [[draw(st.integers(0, 60)), draw(st.integers(0, 60)), draw(st.integers(0, 60))] for _ in range(6)],
             'out_pick': [draw(st.integers(0, 60)) for _ in range(m)]}
     dck = draw(st.sampled_from(['none', 'none', 'cells', 'cells', 'column', 'row', 'all']))
@@ -263,8 +264,27 @@ def check_synthesis(case):
     cols, calls = resolve_case(case)
     dcs = case['dcs']
     table = [[DontCare if (dcs[i] >> j) & 1 else bool((cols[i] >> j) & 1) for j in range(W)] for i in range(m)]
+    transport = case.get('transport', 'none')
+
+    def sent(obj):
+        # how a table / model reaches the finder: as built, deep-copied, or through pickle (as from a worker process);
+        # the don't-care marks are then other objects of the same kind. Objects that cannot be copied are sent as they are.
+        import copy
+        import pickle
+
+        try:
+            if transport == 'deepcopy':
+                return copy.deepcopy(obj)
+            if transport == 'pickle':
+                return pickle.loads(pickle.dumps(obj))
+        except Exception:  # noqa
+            pass
+        return obj
+
+    if transport != 'none' and case['model_kind'] != 'tt_str':
+        table = sent(table)
     if case['model_kind'] == 'tt':
-        model = TruthTableModel([list(r) for r in table])
+        model = sent(TruthTableModel([list(r) for r in table]))
     elif case['model_kind'] == 'tt_str':
         model = TruthTableModel([''.join('*' if (dcs[i] >> j) & 1 else ('1' if (cols[i] >> j) & 1 else '0') for j in range(W)) for i in range(m)])
     else:
@@ -278,6 +298,8 @@ def check_synthesis(case):
     codes = [OPS[o] for o in ops]
     finder = cs.CircuitFinderSat(model, G, basis=_basis_arg(case['basis']), need_normalized=case['normalized'])
     cls = {f'n={n}', f'G={G}', 'basis:' + case['basis']['kind'], 'model:' + case['model_kind']}
+    if transport != 'none' and case['model_kind'] != 'tt_str' and any(dcs):
+        cls.add('dont_care_marks_copied')
     applied = []
     for call in calls:
         if call[0] == 'invalid':
